@@ -139,10 +139,11 @@ def paramsOf (cfg : RunCfg α) (season : Int) (gs : Bool) : DayParams α :=
     fm := if gs then cfg.fm else cfg.fallowFm,
     zGerm := cfg.zGerm, cx := c.cx }
 
-/-- "Check if growing season is active on current time step" -/
+/-- "Check if growing season is active on current time step":
+`planting_date <= CurrentDate and harvest_date > CurrentDate and not crop_mature and not crop_dead` -/
 def gsOfDay (ph : Option (Nat × Int)) (t : Nat) (mature dead : Bool) : Bool :=
   match ph with
-  | some (p, h) => decide ((p : Int) ≤ t) && decide ((t : Int) ≤ h) && !mature && !dead
+  | some (p, h) => decide ((p : Int) ≤ t) && decide ((t : Int) < h) && !mature && !dead
   | none => false
 
 /-- `harvest_dates[season_counter] == step_end_time` -/
